@@ -53,17 +53,23 @@ DumpSane(o) ==
           /\ IsSetSeq(x.out, {e \in LiveE(g) : g.rels[e].src = x.id})
           /\ IsSetSeq(x["in"], {e \in LiveE(g) : g.rels[e].dst = x.id})
 
-\* index / label / constraint probes through the engine = what the model graph says
+\* probes = what the model graph says.  label:L the label index API, scan:L MATCH (n:L) through the engine,
+\* eq:L:v / where:L:v property lookups through the engine (index-backed once an index or constraint on (L,k)
+\* exists), cons:L:v the node registered in the unique-constraint index as the holder of v (present only for
+\* constrained labels).  The recipe decides which groups the harness records.
 IdRows(S) == {<<Tok(i)>> : i \in S}
+Has(o, name) == name \in DOMAIN o.probes
 ProbesOK(o, g) ==
     \A lb \in Labels :
         LET members == {i \in LiveN(g) : lb \in g.nodes[i].labels} IN
         /\ IsSetSeq(o.probes["label:" \o lb], members)
         /\ IsSetSeq(o.probes["scan:" \o lb], IdRows(members))
+        /\ ConsName(lb, "k") \in g.cons => \A v \in ToSet(o.universe) : Has(o, "cons:" \o lb \o ":" \o v)
         /\ \A v \in ToSet(o.universe) :
               LET holders == {i \in members : g.nodes[i].props["k"] = v} IN
-              /\ IsSetSeq(o.probes["eq:" \o lb \o ":" \o v], IdRows(holders))
-              /\ IsSetSeq(o.probes["where:" \o lb \o ":" \o v], IdRows(holders))
+              /\ Has(o, "eq:" \o lb \o ":" \o v) => IsSetSeq(o.probes["eq:" \o lb \o ":" \o v], IdRows(holders))
+              /\ Has(o, "where:" \o lb \o ":" \o v) => IsSetSeq(o.probes["where:" \o lb \o ":" \o v], IdRows(holders))
+              /\ Has(o, "cons:" \o lb \o ":" \o v) => IsSetSeq(o.probes["cons:" \o lb \o ":" \o v], holders)
 
 \* returned rows, as bags
 Count(s, x) == Cardinality({j \in DOMAIN s : s[j] = x})
@@ -81,10 +87,11 @@ T_Stmt ==
        IN /\ IF st.kind = "constraint"
              THEN CreateConstraint(st, Refused, Gn) /\ Same
              ELSE \E rows \in RowTables(G, st.src) :
-                     \/ /\ Stmt(st, rows, Refused, Gn)
-                        /\ ~Refused => BagEq(StmtRows(st, rows), Ev.rows)
+                     LET r == Exec(G, st, rows) IN
+                     \/ /\ StmtR(r, Refused, Gn)
+                        /\ ~Refused => BagEq(r.rows, Ev.rows)
                         /\ Same
-                     \/ /\ KF_C05_RowByRowApply(st, rows, Refused, Gn)
+                     \/ /\ KF_C05_RowByRowApplyR(r, Refused, Gn)
                         /\ KF("KF_C05_RowByRowApply")
           /\ CheckProbes => ProbesOK(Ev.obs, Gn)
 
